@@ -251,7 +251,7 @@ fn main() {
                 "daser_refusals": g(&tot.refusals),
             }),
         );
-        if g(&tot.removed_inside_sampling_window) == 0 || g(&tot.removed_with_cids) == 0 || g(&tot.removed_outside_both) == 0 {
+        if rep.violation_count == 0 && (g(&tot.removed_inside_sampling_window) == 0 || g(&tot.removed_with_cids) == 0 || g(&tot.removed_outside_both) == 0) {
             machinery_error(&ctx.id, "vacuous run: some removal category was never exercised");
         }
     }
